@@ -109,24 +109,33 @@ MkPlan(op, mode, lk, rk, spelling, how, dir) ==
     [kind |-> "call", op |-> op, mode |-> mode, lk |-> lk, rk |-> rk, spelling |-> spelling, how |-> how, dir |-> dir,
      implicit |-> spelling = "none"]
 \* explicit keys: every key plan x every op/mode, the spelling rotating
-ExplicitPlans(dir) ==
-    [n \in 1..(Len(KeyPlans) * Len(OpModes)) |->
-        LET k == ((n - 1) \div Len(OpModes)) + 1
-            m == ((n - 1) % Len(OpModes)) + 1
-        IN  MkPlan(OpModes[m][1], OpModes[m][2], KeyPlans[k].lk, KeyPlans[k].rk, SpellOf(KeyPlans[k], k + m), "method", dir)]
+NExplicit == Len(KeyPlans) * Len(OpModes)
+ExplicitPlan(j, dir) ==
+    LET k == ((j - 1) \div Len(OpModes)) + 1
+        m == ((j - 1) % Len(OpModes)) + 1
+    IN  MkPlan(OpModes[m][1], OpModes[m][2], KeyPlans[k].lk, KeyPlans[k].rk, SpellOf(KeyPlans[k], k + m), "method", dir)
 \* implicit keys (lcols = None): the common columns; as a method call with every op/mode, and as x * y, x / y, x*y + x/y
+NImplicit == Len(OpModes) + 3
 ImplicitKeys(l, r) == [k \in 1..Len(Common(l, r)) |-> KC(Common(l, r)[k])]
-ImplicitPlans(l, r, dir) ==
+ImplicitPlan(j, l, r, dir) ==
     LET ks == ImplicitKeys(l, r) IN
-    [m \in 1..Len(OpModes) |-> MkPlan(OpModes[m][1], OpModes[m][2], ks, ks, "none", "method", dir)]
-    \o << MkPlan("join", "none", ks, ks, "none", "operator", dir), MkPlan("xor", "l", ks, ks, "none", "operator", dir),
-          MkPlan("leftjoin", "none", ks, ks, "none", "operator", dir) >>
+    IF j <= Len(OpModes) THEN MkPlan(OpModes[j][1], OpModes[j][2], ks, ks, "none", "method", dir)
+    ELSE IF j = Len(OpModes) + 1 THEN MkPlan("join", "none", ks, ks, "none", "operator", dir)
+    ELSE IF j = Len(OpModes) + 2 THEN MkPlan("xor", "l", ks, ks, "none", "operator", dir)
+    ELSE MkPlan("leftjoin", "none", ks, ks, "none", "operator", dir)
 \* the composite needs a key (without one xor is the named deviation); the mirrored direction (the OTHER object
 \* is the one whose method is called) needs another table object
 PlanOK(p, shape) == /\ (p.op = "leftjoin" => Len(p.lk) > 0)
                     /\ (p.dir = "yx" => shape \notin {"same", "dictof"})
-\* all plans for the operand values l (base object side) and r (the other object)
-PlanSeq(l, r) == ExplicitPlans("xy") \o ImplicitPlans(l, r, "xy") \o ExplicitPlans("yx") \o ImplicitPlans(r, l, "yx")
+\* plan number i (1..NPlans) for the operand values l (base object side) and r (the other object):
+\* first all plans called on the base object, then the mirrored ones
+NPerDir == NExplicit + NImplicit
+NPlans == 2 * NPerDir
+PlanAt(i, l, r) ==
+    LET dir == IF i <= NPerDir THEN "xy" ELSE "yx"
+        j == ((i - 1) % NPerDir) + 1
+    IN  IF j <= NExplicit THEN ExplicitPlan(j, dir)
+        ELSE IF dir = "xy" THEN ImplicitPlan(j - NExplicit, l, r, dir) ELSE ImplicitPlan(j - NExplicit, r, l, dir)
 \* the operands of a plan in call order
 CallLeft(p, l, r) == IF p.dir = "xy" THEN l ELSE r
 CallRight(p, l, r) == IF p.dir = "xy" THEN r ELSE l
